@@ -551,6 +551,7 @@ func (s *stickyBalanceStrategy) performReassignments(reassignablePartitions []to
 			state.WriteByte(0)
 		}
 		if _, exists := seenAssignments[state.String()]; exists {
+			verifHook("bal.cycle", len(seenAssignments))
 			return reassignmentPerformed
 		}
 		seenAssignments[state.String()] = struct{}{}
